@@ -21,7 +21,9 @@ SEGS = ['a', 'b', 'index.html', '.', '..', '%2e', '%2E%2E', '%2e%2e', '%2F', '%2
         '...', '. .', '%20', '%2E%20', '-', '+',
         # compatibility characters that Unicode normalisation folds into dots and slashes
         '%E2%80%A5', '%EF%BC%8F', '%E2%80%A4', '%EF%BC%8E', '%EF%B9%92', '\u2025', '\uff0f', 'a%EF%BC%8Fb', '%E2%80%A4%E2%80%A4',
-        '%EF%BC%8E%EF%BC%8E', '%EF%BC%BC', '..%EF%BC%8F']
+        '%EF%BC%8E%EF%BC%8E', '%EF%BC%BC', '..%EF%BC%8F',
+        # a control character as the very last / very first character of an otherwise plain name
+        'notes%0A', 'readme.txt%0A', 'a%0a', '%0Aa', 'a%0D', 'plain-name_1.0%0A', 'a%09', 'a%1F']
 QUERIES = ['', '', '', 'a=1', 'p=/etc/passwd', 'x=../../y', 'q=a%2Fb', 'q=%2e%2e', 'a=1&b=2', 'x=' + 'y' * 400, 'é=ü', '/', '..',
            'q=a\\b']
 DISPOSITIONS = [None, None, 'attachment; filename=report.pdf', 'attachment; filename="a b.txt"', 'attachment; filename=../../evil',
@@ -29,7 +31,10 @@ DISPOSITIONS = [None, None, 'attachment; filename=report.pdf', 'attachment; file
                 'attachment; filename="."', 'attachment; filename="..\\..\\win"', 'inline; filename=a/b/c', 'attachment; filename="x\x01y"',
                 'attachment; filename=%2e%2e%2fz', 'attachment; filename="é.txt"', "attachment; filename='q'", 'attachment; filename=',
                 'attachment; filename="a"; size=1', 'attachment; FILENAME=UP.TXT', 'attachment; filename="' + 'n' * 500 + '"',
-                'attachment; filename=a\\"b', 'attachment; filename="..  "', 'attachment; filename="x "', 'attachment; filename=x.']
+                'attachment; filename=a\\"b', 'attachment; filename="..  "', 'attachment; filename="x "', 'attachment; filename=x.',
+                # an empty or blank unquoted name followed by further parameters
+                "attachment; filename=; filename*=UTF-8''x.pdf", 'attachment; filename=;', 'attachment; filename= ; size=12',
+                'attachment; filename=\t;x=y', 'attachment; filename=" "']
 
 
 def gen_options(rng):
